@@ -123,6 +123,11 @@ class Grid(np.ndarray):
         self._metadata = copy.deepcopy(state[-1])
         super(Grid, self).__setstate__(state[:-1])
 
+    def __deepcopy__(self, memo):
+        result = super(Grid, self).__deepcopy__(memo)
+        result._metadata = copy.deepcopy(self._metadata, memo)
+        return result
+
     @property
     def ndarray(self):
         """View this array as a numpy ndarray"""
